@@ -178,6 +178,7 @@ func booleanSection(r *vlib.Run, k *kit, nCases int) {
 			n = 13 + rng.Intn(68)
 			big = true
 		}
+		subAssembly := rng.Intn(12) == 0
 		ops := make([]*node, n)
 		for i := range ops {
 			if big {
@@ -185,6 +186,21 @@ func booleanSection(r *vlib.Run, k *kit, nCases int) {
 			} else {
 				ops[i] = b.operand(0)
 			}
+		}
+		if subAssembly {
+			// one operand is itself a large assembly: a join of 64-300 small overlapping parts
+			m := []int{64, 65, 100, 128, 300}[rng.Intn(5)]
+			kids := make([]*node, m)
+			for i := range kids {
+				l := newLeaf(rng, k.dim, dyadic)
+				kids[i] = &node{kind: "leaf", s: k.leaf(l), hl: l, desc: l.desc()}
+			}
+			asm := b.combine("join", kids)
+			asm.desc = fmt.Sprintf("join[%d small parts]", m)
+			b.add(asm)
+			ops = append(ops, asm)
+			n++
+			c.Count(T+"cases_with_a_large_sub_assembly_operand", 1)
 		}
 		nested := append([]*node{}, b.order...) // nodes to check individually
 
@@ -304,6 +320,53 @@ func booleanSection(r *vlib.Run, k *kit, nCases int) {
 				}
 			}
 		}
+		// a scene assembled in stages from one list (prefix views of one backing array nested in an
+		// outer join, in seeded order): the optimised form is the union of the longest stage
+		if n >= 2 && !subAssembly {
+			ncuts := 2 + rng.Intn(3)
+			cuts := make([]int, ncuts)
+			mx := 0
+			for i := range cuts {
+				cuts[i] = 1 + rng.Intn(n)
+				if cuts[i] > mx {
+					mx = cuts[i]
+				}
+			}
+			plain, opt := k.staged(solidsOf(ops), cuts)
+			c.Count(T+"staged_assemblies", 1)
+			for _, x := range pts {
+				e := &evalCtx{dim: k.dim, memo: map[*node]bool{}}
+				want := false
+				for _, o := range ops[:mx] {
+					if e.eval(o, x) {
+						want = true
+					}
+				}
+				if e.oob != nil {
+					continue
+				}
+				if got := plain.Has(x); got != want {
+					c.Violation(k.pkg+".JoinedSolid.Contains/union(staged-assembly)", fmt.Sprintf("join of the stages list[:c] for c=%v answers %v, the union of the first %d parts is %v", cuts, got, mx, want),
+						map[string]interface{}{"operands": descs(ops), "cuts": cuts, "point": x.hex(k.dim)})
+					break
+				}
+				if got := opt.Has(x); got != want {
+					c.Violation(k.pkg+".JoinedSolid.Optimize/equals-plain-join(staged-assembly)", fmt.Sprintf("Optimize() of the join of the stages list[:c] for c=%v answers %v, the union of the first %d parts is %v", cuts, got, mx, want),
+						map[string]interface{}{"operands": descs(ops), "cuts": cuts, "point": x.hex(k.dim)})
+					break
+				}
+			}
+			lo, hi := opt.Lo(), opt.Hi()
+			for _, o := range ops[:mx] {
+				ol, oh := o.s.Lo(), o.s.Hi()
+				for d := 0; d < k.dim; d++ {
+					if ol[d] < lo[d] || oh[d] > hi[d] {
+						c.Violation(k.pkg+".JoinedSolid.Optimize/bounds(staged-assembly)", "the optimised assembly's box does not enclose one of its parts' boxes",
+							map[string]interface{}{"operands": descs(ops), "cuts": cuts})
+					}
+				}
+			}
+		}
 		// pruning evidence: flat lists of harness leaves only
 		if allHarness {
 			m := fs[0].m
@@ -361,6 +424,10 @@ func checkNode(c *caseCtx, k *kit, e *evalCtx, nd *node, x vec, T string) bool {
 		return true
 	}
 	want := e.eval(nd, x)
+	if e.oob != nil {
+		c.Undecided("operand-contains-outside-own-bounds")
+		return true
+	}
 	got := nd.s.Has(x)
 	c.Count(T+"nested."+nd.kind, 1)
 	if got != want {
